@@ -38,8 +38,9 @@ def approx_equal_numbers(
         relative_tolerance = APPROX_RELATIVE_TOLERANCE
     if absolute_tolerance is None:
         absolute_tolerance = abs(lhs * relative_tolerance)
-        # an infinite ``lhs`` must not produce an infinite tolerance, which would accept any ``rhs``
-        if absolute_tolerance == inf:
+        # an infinite ``lhs`` must not produce an infinite tolerance, which would accept any ``rhs``,
+        # nor an undefined one (``inf * 0`` for a zero relative tolerance), which ``approx`` refuses
+        if absolute_tolerance == inf or absolute_tolerance != absolute_tolerance:
             absolute_tolerance = 0.0
 
     rhs_approx = approx(rhs, rel=relative_tolerance, abs=absolute_tolerance)
